@@ -916,6 +916,11 @@ class FunctionBuilder:
         if arg_name in self.kwonlyargs:
             raise ExistingArgument(f'arg {arg_name!r} already in func {self.name} kwonly arg list')
         if not kwonly:
+            if default is NO_DEFAULT and self.defaults:
+                # "def f(a, b=1, c)" is not expressible: the defaults are
+                # re-attached positionally and would migrate to *arg_name*
+                raise ValueError(f'cannot add positional arg {arg_name!r} without a'
+                                 f' default after args with defaults in func {self.name}')
             self.args.append(arg_name)
             if default is not NO_DEFAULT:
                 self.defaults = (self.defaults or ()) + (default,)
